@@ -147,6 +147,14 @@ DiagR ==
     ELSE Diag
 
 -----------------------------------------------------------------------------
+\* what an error trace shows (cfg: ALIAS Shown): TLC's pretty printer needs seconds per state for kilobyte sections
+\* unreach: for the transfers that left their range, whether the target lies in the section of the jump
+Unreach == IF JustRelaxed
+           THEN {IF SameSection(Before, pre.map[k]) THEN "same" ELSE "cross" :
+                    k \in {j \in 1..Len(dst.rels) : InReach(Before, pre.map[j]) /\ ~InReach(dst, j)}}
+           ELSE {}
+Shown == [job |-> job, l |-> l, ph |-> ph, nxt |-> nxt, bad |-> bad, why |-> why, shrunk |-> pre.K, unreach |-> Unreach,
+          secs |-> MkT([k \in 1..Len(dst.secs) |-> <<dst.secs[k].name, dst.secs[k].addr, dst.secs[k].align, Len(dst.secs[k].data)>>])]
 RInit == TInit /\ pre = NoPre
 WorkingR == job > 0 /\ ~bad /\ ~(l = Len(Events) + 1 /\ Finished)
 StepR   == WorkingR /\ EvStepR
